@@ -48,6 +48,9 @@ pub enum Op {
     SubmitCoBad(usize),
     /// hand a plain coroutine (not a task) to the pool through the public submit_co
     SubmitCo(usize),
+    /// from now on only this pool's thread gets to schedule for a while (the others are busy
+    /// elsewhere): whatever has not started yet must be found and run by this pool
+    Solo(usize),
 }
 
 fn is_submit(o: &Op) -> bool {
@@ -68,6 +71,7 @@ impl Op {
             Op::Resubmit(t) => json!(format!("resubmit-name-of(T{t})")),
             Op::SubmitCoBad(p) => json!(format!("submit_co-huge-stack(P{p})")),
             Op::SubmitCo(p) => json!(format!("submit_co(P{p})")),
+            Op::Solo(p) => json!(format!("only-P{p}-keeps-scheduling")),
         }
     }
     pub fn from_json(v: &Value) -> Option<Op> {
@@ -108,6 +112,9 @@ impl Op {
         }
         if let Some(r) = inner("submit_co(P") {
             return Some(Op::SubmitCo(r.parse().ok()?));
+        }
+        if let Some(r) = s.strip_prefix("only-P").and_then(|r| r.strip_suffix("-keeps-scheduling")) {
+            return Some(Op::Solo(r.parse().ok()?));
         }
         None
     }
@@ -169,6 +176,13 @@ impl Cfg {
                 // so such pools are driven only through stop()
                 if self.pools[p].0 == 0 && !hist.contains(&Op::Stop(p)) {
                     v.push(Op::Pass(p));
+                }
+            }
+        }
+        if self.ops.contains(&"solo") && np > 1 && !hist.iter().any(|o| matches!(o, Op::Solo(_) | Op::Stop(_))) {
+            for p in 0..np {
+                if self.pools[p].0 == 0 {
+                    v.push(Op::Solo(p));
                 }
             }
         }
@@ -520,6 +534,25 @@ pub fn run_history(cfg: &Cfg, hist: &[Op], emit_at: Option<&mut Emitter>) -> Out
                 }
             }
             Op::Adv(ms) => open_coroutine_core::verif::clock_set(now() + ms * MS),
+            Op::Solo(p) => {
+                let unstarted: Vec<usize> = {
+                    let s = sh.lock().unwrap();
+                    (0..tasks.len()).filter(|t| tasks[*t].accepted && !tasks[*t].cancelled && s.started[*t] == 0).collect()
+                };
+                for _ in 0..16 {
+                    cur_pool.store(*p as u64, Ordering::SeqCst);
+                    let _ = pools[*p].try_timed_schedule_task(Duration::from_millis(2));
+                    cur_pool.store(u64::MAX, Ordering::SeqCst);
+                    open_coroutine_core::verif::clock_set(now() + 5 * MS);
+                }
+                let s = sh.lock().unwrap();
+                if let Some(t) = unstarted.iter().find(|t| s.started[**t] == 0) {
+                    let class = if tasks[*t].pool == *p { "own-task" } else { "task-accepted-by-the-other-pool" };
+                    push(&mut viols, "C01", "a-pool-that-keeps-scheduling-finds-every-waiting-task", class, at(format!("pool {p} alone scheduled 16 times (80 ms) and task T{t}, accepted by pool {} and not cancelled, still has not started ({} task(s) reported queued)", tasks[*t].pool, pools[*p].size())));
+                } else if !unstarted.is_empty() {
+                    witnesses.push("solo_pool_ran_every_waiting_task");
+                }
+            }
             Op::Cancel(t) => {
                 let (started, finished) = {
                     let s = sh.lock().unwrap();
@@ -1082,11 +1115,11 @@ pub fn configs(scen: &str, tier: &str) -> Vec<Cfg> {
         // C01: every task runs exactly once, 1..3 pools sharing a tiny global queue
         "pool.c01" => {
             v.push(all("one-pool", vec![(0, 2, 0)], 2, &["Return", "Suspend", "Delay5"], if t { &[0, 1] } else { &[0] }, d(3, 5), &["submit", "pass", "adv", "cancel"], d(5, 8)));
-            v.push(all("two-pools", vec![(0, 1, 0), (0, 2, 0)], 2, &["Return", "Suspend"], &[0], d(3, 5), &["submit", "pass", "cancel"], d(5, 7)));
-            v.push(all("two-pools-cap1", vec![(0, 2, 0), (0, 2, 0)], 1, &["Return", "Delay5"], if t { &[0, -1] } else { &[0] }, d(3, 4), &["submit", "pass", "adv"], d(5, 7)));
+            v.push(all("two-pools", vec![(0, 1, 0), (0, 2, 0)], 2, &["Return", "Suspend"], &[0], d(3, 5), &["submit", "pass", "cancel", "solo"], d(5, 7)));
+            v.push(all("two-pools-cap1", vec![(0, 2, 0), (0, 2, 0)], 1, &["Return", "Delay5"], if t { &[0, -1] } else { &[0] }, d(3, 4), &["submit", "pass", "adv", "solo"], d(5, 7)));
             v.push(all("name-reuse", vec![(0, 1, 0)], 4, &["Return"], &[0], 3, &["submit", "pass", "cancel", "clean", "resubmit"], d(6, 7)));
             if t {
-                v.push(all("three-pools", vec![(0, 1, 0), (0, 1, 0), (0, 2, 0)], 2, &["Return", "Suspend"], &[0], 4, &["submit", "pass"], 7));
+                v.push(all("three-pools", vec![(0, 1, 0), (0, 1, 0), (0, 2, 0)], 2, &["Return", "Suspend"], &[0], 4, &["submit", "pass", "solo"], 7));
             }
         }
         // C02: waits return the task's own outcome, whichever pool ran it
